@@ -128,3 +128,9 @@ func compositeMsgs(e error) []string {
 	}
 	return []string{e.Error()}
 }
+
+func parseParam(text string) (*spec.Parameter, error) {
+	p := new(spec.Parameter)
+	err := json.Unmarshal([]byte(text), p)
+	return p, err
+}
